@@ -60,7 +60,7 @@ Emit ==
      \E n \in {RandomElement(Lens(s))} :
      \E two \in {RandomElement(BOOLEAN)} :
        LET t == DrawnPattern(i, j, m, q)
-           r == RandomElement(Replacements(t))
+           r == RandomElement(Replacements(<<>>, t))
            c == DrawnCase(f2, rk, t, SubSeq(s, i, j), r, st, n, two)
        IN /\ cs' = c
           /\ PrintT(ToJson(Emitted(c)))
@@ -82,5 +82,5 @@ LawsOnDrawn == cs.fn # "-" =>
   /\ (Len(cs.a) >= 1 /\ cs.a[1].k = "s") =>
         LET t == cs.a[1].cp IN
           /\ LawIndexOf(s, t) /\ LawContains(s, t) /\ LawAffix(s, t)
-          /\ \A r \in Replacements(t) : LawReplace(s, t, r)
+          /\ \A r \in Replacements(<<>>, t) : LawReplace(s, t, r)
 =============================================================================
